@@ -203,7 +203,12 @@ static void writer_phase(rng_t *r, const char *path, int threaded, int big) {
             uint8_t *d = gen_payload(st == JLS_STORAGE_TYPE_BINARY ? 1 : 2, sz ? sz : 1, (uint64_t) q);
             if (st != JLS_STORAGE_TYPE_BINARY) d[sz ? sz - 1 : 0] = 0;
             float y = rng_chance(r, 1, 3) ? NAN : (float) q;
-            if (threaded) CALL("jls_twr_annotation", jls_twr_annotation(tw, id, pick_i64(r, q), y, at, (uint8_t) q, st, d, (st == JLS_STORAGE_TYPE_STRING || st == JLS_STORAGE_TYPE_JSON) ? twr_size_arg((uint8_t) st, sz ? sz : 1, rng_u64(r)) : (sz ? sz : 1)));
+            if (threaded) {
+                /* the size argument only describes BINARY data: for every other storage type, valid or not, it may be anything */
+                uint32_t sarg = (st == JLS_STORAGE_TYPE_BINARY) ? (sz ? sz : 1) : twr_size_arg((uint8_t) JLS_STORAGE_TYPE_STRING, sz ? sz : 1, rng_u64(r));
+                rc = CALL("jls_twr_annotation", jls_twr_annotation(tw, id, pick_i64(r, q), y, at, (uint8_t) q, st, d, sarg));
+                if (!rc && (st > 255 || at > 255)) v_violation("C10", "enum-out-of-range-accepted|jls_twr_annotation", NULL, "storage type %d, annotation type %d: the call returned 0 (the synchronous writer rejects it)", st, at);
+            }
             else CALL("jls_wr_annotation", jls_wr_annotation(wr, id, pick_i64(r, q), y, at, (uint8_t) q, st, d, st == JLS_STORAGE_TYPE_BINARY ? sz : 0));
             free(d);
         } else if (kind < 88) {
@@ -216,7 +221,11 @@ static void writer_phase(rng_t *r, const char *path, int threaded, int big) {
             uint8_t *d = gen_payload(st == JLS_STORAGE_TYPE_BINARY ? 1 : 2, sz ? sz : 1, (uint64_t) q);
             if (st != JLS_STORAGE_TYPE_BINARY) d[sz ? sz - 1 : 0] = 0;
             uint16_t meta = (uint16_t) rng_below(r, 65536);
-            if (threaded) CALL("jls_twr_user_data", jls_twr_user_data(tw, meta, st, d, (st == JLS_STORAGE_TYPE_STRING || st == JLS_STORAGE_TYPE_JSON) ? twr_size_arg((uint8_t) st, sz ? sz : 1, rng_u64(r)) : (sz ? sz : 1))); else CALL("jls_wr_user_data", jls_wr_user_data(wr, meta, st, (sz || (st != JLS_STORAGE_TYPE_BINARY && st != JLS_STORAGE_TYPE_INVALID) || rng_chance(r, 1, 2)) ? d : NULL, st == JLS_STORAGE_TYPE_BINARY ? sz : 0));
+            if (threaded) {
+                uint32_t sarg = (st == JLS_STORAGE_TYPE_BINARY) ? (sz ? sz : 1) : twr_size_arg((uint8_t) JLS_STORAGE_TYPE_STRING, sz ? sz : 1, rng_u64(r));
+                rc = CALL("jls_twr_user_data", jls_twr_user_data(tw, meta, st, d, sarg));
+                if (!rc && st > 255) v_violation("C10", "enum-out-of-range-accepted|jls_twr_user_data", NULL, "storage type %d: the call returned 0 (the synchronous writer rejects it)", st);
+            } else CALL("jls_wr_user_data", jls_wr_user_data(wr, meta, st, (sz || (st != JLS_STORAGE_TYPE_BINARY && st != JLS_STORAGE_TYPE_INVALID) || rng_chance(r, 1, 2)) ? d : NULL, st == JLS_STORAGE_TYPE_BINARY ? sz : 0));
             free(d);
         } else {
             if (threaded) CALL("jls_twr_flush", jls_twr_flush(tw)); else CALL("jls_wr_flush", jls_wr_flush(wr));
